@@ -1,1 +1,183 @@
-/-! Property theorems for C07 — placeholder until the property's model is built. -/
+import FcpptModel.Spec.C07
+import FcpptProofs.C07.Finish
+/-!
+# C07 — property theorems
+
+`g` is any growth policy with `n ≤ g n cap` (the code's `max n (2*cap)` is `growth`, see `growth_ge`).
+`GInv st ss` (FcpptProofs/C07/Global.lean) says: the heap is well formed, every vector register `r` owns a live
+block of exactly `capacity` cells whose first `size` cells hold the list `ss.vec r`, `size ≤ capacity`, every
+buffer register likewise with its write area inside the block, no two registers share a block, every live
+block belongs to a register.
+
+A history is a list of operations over any number of vector and buffer registers; "valid" means that the List
+specification `Spec.sstep` (= std::vector's preconditions: positions inside `[0,size]`, a reference argument
+`v[i]` refers to an existing element, …) is defined.
+
+Only theorems live in this file; the lemmas are in `FcpptProofs/C07/`.
+-/
+namespace Fcppt.C07
+open Spec
+
+/-- the code's growth policy satisfies the only assumption made about it -/
+theorem growth_ge (n c : Nat) : n ≤ growth n c := Nat.le_max_left _ _
+
+/-- One valid operation (any of: constructors, push_back, pop_back, the three inserts incl. aliased arguments and
+input/forward ranges, both erases, resize, reserve, shrink_to_fit, clear, swap, move construction/assignment,
+every buffer operation, to_raw_vector): the model does not fault (no out-of-bounds or uninitialised access, no
+double free, no wrong-size deallocate), returns the iterator offset std::vector returns, and the invariant +
+representation relation hold again for the specification's next state. -/
+theorem step_ok (g : Nat → Nat → Nat) (hg : ∀ n c, n ≤ g n c) {st : St} {ss : SSt} (G : GInv st ss)
+    (o : Op) (ss' : SSt) (ret : Option Nat) (hs : sstep ss o = some (ss', ret)) :
+    ∃ st', step g st o = .ok (st', ret) ∧ GInv st' ss' :=
+  step_spec g hg G o ss' ret hs
+
+/-- All histories: from the initial state (all registers default constructed / null) every valid operation
+sequence of any length runs without fault and ends in a state related to the specification's state. -/
+theorem history (g : Nat → Nat → Nat) (hg : ∀ n c, n ≤ g n c) :
+    ∀ (ops : List Op) {st : St} {ss : SSt} (ss' : SSt), GInv st ss → srunAll ss ops = some ss' →
+    ∃ st', runAll g st ops = .ok st' ∧ GInv st' ss'
+  | [], st, ss, ss', G, hs => by
+    simp only [srunAll, Option.some.injEq] at hs
+    subst hs
+    exact ⟨st, rfl, G⟩
+  | o :: os, st, ss, ss', G, hs => by
+    simp only [srunAll, Option.bind_eq_some_iff] at hs
+    obtain ⟨⟨ss1, ret⟩, h1, h2⟩ := hs
+    obtain ⟨st1, he, G1⟩ := step_ok g hg G o ss1 ret h1
+    obtain ⟨st2, he2, G2⟩ := history g hg os ss' G1 h2
+    exact ⟨st2, by simp only [runAll, he, ok_bind]; exact he2, G2⟩
+
+/-- `history` from the very beginning -/
+theorem history_from_init (g : Nat → Nat → Nat) (hg : ∀ n c, n ≤ g n c) (ops : List Op) (ss' : SSt)
+    (hs : srunAll SSt.init ops = some ss') : ∃ st', runAll g St.init ops = .ok st' ∧ GInv st' ss' :=
+  history g hg ops ss' ginv_init hs
+
+/-- After every valid history: contents (by iteration) and size of every vector are those of std::vector,
+and the capacity is never below the size. -/
+theorem contents_size_capacity (g : Nat → Nat → Nat) (hg : ∀ n c, n ≤ g n c) (ops : List Op) (ss' : SSt)
+    (hs : srunAll SSt.init ops = some ss') :
+    ∃ st', runAll g St.init ops = .ok st' ∧
+      ∀ r, toList st'.heap (st'.vec r) = .ok (ss'.vec r) ∧ (st'.vec r).last = (ss'.vec r).length ∧
+        (st'.vec r).last ≤ (st'.vec r).cap := by
+  obtain ⟨st', he, G⟩ := history_from_init g hg ops ss' hs
+  exact ⟨st', he, fun r => ⟨toList_of_owns (G.vec r), (G.vec r).1.symm, (G.vec r).2.1⟩⟩
+
+/-- After every valid history a further valid operation returns the iterator (offset from `begin()`) that
+std::vector returns, and leaves the contents std::vector has — in particular for `insert(pos, v[i])`,
+`insert(pos, n, v[i])`, `push_back(v[i])`, `resize(n, v[i])` with the aliased value read before anything moves. -/
+theorem returned_iterator_and_contents (g : Nat → Nat → Nat) (hg : ∀ n c, n ≤ g n c) (ops : List Op) (ss1 : SSt)
+    (hs : srunAll SSt.init ops = some ss1) (o : Op) (ss2 : SSt) (ret : Option Nat) (ho : sstep ss1 o = some (ss2, ret)) :
+    ∃ st1 st2, runAll g St.init ops = .ok st1 ∧ step g st1 o = .ok (st2, ret) ∧
+      ∀ r, toList st2.heap (st2.vec r) = .ok (ss2.vec r) := by
+  obtain ⟨st1, he, G⟩ := history_from_init g hg ops ss1 hs
+  obtain ⟨st2, he2, G2⟩ := step_ok g hg G o ss2 ret ho
+  exact ⟨st1, st2, he, he2, fun r => toList_of_owns (G2.vec r)⟩
+
+/-- The single-vector layer on its own (this is what is used for every `Op.v`): a valid operation on a vector
+owning `l` does not fault, refines the list operation, and touches no block of any other owner (`Frame`). -/
+theorem vector_op_refines (g : Nat → Nat → Nat) (hg : ∀ n c, n ≤ g n c) {h : Heap} {v : RV} {l : List Int}
+    (hwf : HeapWf h) (ho : Owns h v l) (o : VOp) (l' : List Int) (ret : Option Nat) (hs : svstep l o = some (l', ret)) :
+    ∃ h' v', vstep g h v o = .ok (h', v', ret) ∧ Owns h' v' l' ∧ Frame h v.base h' v'.base :=
+  vstep_spec g hg hwf ho o l' ret hs
+
+/-- A buffer grown and filled in any pattern (any valid history) hands exactly its read area to the
+raw_vector it is converted into; the buffer is empty afterwards and nothing is copied or leaked
+(the invariant, which includes "every live block has exactly one owner", holds again). -/
+theorem buffer_hands_read_area (g : Nat → Nat → Nat) (hg : ∀ n c, n ≤ g n c) (ops : List Op) (ss1 : SSt)
+    (hs : srunAll SSt.init ops = some ss1) (r b : Nat) :
+    ∃ st1 st2, runAll g St.init ops = .ok st1 ∧ step g st1 (.ctorBuf r b) = .ok (st2, none) ∧
+      Buf.readArea st1.heap (st1.buf b) = .ok (ss1.buf b).1 ∧
+      toList st2.heap (st2.vec r) = .ok (ss1.buf b).1 ∧
+      (st2.buf b).base = none ∧ Buf.readArea st2.heap (st2.buf b) = .ok [] := by
+  obtain ⟨st1, he, G⟩ := history_from_init g hg ops ss1 hs
+  obtain ⟨st2, he2, G2⟩ := step_ok g hg G (.ctorBuf r b) _ none rfl
+  refine ⟨st1, st2, he, he2, ?_, ?_, ?_, ?_⟩
+  · rw [readArea_eq]; exact toList_of_owns (G.buf b).1
+  · simpa [upd] using toList_of_owns (G2.vec r)
+  · -- the buffer register holds null pointers
+    simp only [step, toRawVector_eq] at he2
+    cases hd : deallocate st1.heap (st1.vec r) with
+    | error e => rw [hd] at he2; cases he2
+    | ok h1 =>
+      rw [hd] at he2
+      simp only [ok_bind, pure_eq_ok, Except.ok.injEq, Prod.mk.injEq] at he2
+      rw [← he2.1]
+      simp [upd, Buf.null]
+  · rw [readArea_eq]; simpa [upd] using toList_of_owns (G2.buf b).1
+
+/-- No leak, no double free: after any valid history, running the destructors of all registers succeeds
+(each block is freed exactly once, with the size it was allocated with) and leaves no live allocation.
+(`hv`/`hb`: registers the history never used still hold null pointers; the driver uses 3 + 2 registers.) -/
+theorem no_leak_no_double_free (g : Nat → Nat → Nat) (hg : ∀ n c, n ≤ g n c) (ops : List Op) (ss' : SSt)
+    (hs : srunAll SSt.init ops = some ss') (nv nb : Nat) :
+    ∃ st', runAll g St.init ops = .ok st' ∧
+      ((∀ r, nv ≤ r → (st'.vec r).base = none) → (∀ k, nb ≤ k → (st'.buf k).base = none) →
+        ∃ h, finish st' nv nb = .ok h ∧ ∀ i, h.slot i = none) := by
+  obtain ⟨st', he, G⟩ := history_from_init g hg ops ss' hs
+  exact ⟨st', he, fun hv hb => finish_spec G nv nb hv hb⟩
+
+/-- comparison.hpp: `==` and `<` of two vectors are equality and lexicographic order of the lists they hold -/
+theorem comparison_spec {st : St} {ss : SSt} (G : GInv st ss) (r s : Nat) :
+    equalV st.heap (st.vec r) (st.vec s) = .ok (ss.vec r == ss.vec s) ∧
+    lessV st.heap (st.vec r) (st.vec s) = .ok (lexLt (ss.vec r) (ss.vec s)) := by
+  have h1 := toList_of_owns (G.vec r)
+  have h2 := toList_of_owns (G.vec s)
+  refine ⟨?_, by simp [lessV, h1, h2]⟩
+  simp only [equalV]
+  by_cases hl : (st.vec r).last = (st.vec s).last
+  · simp [hl, h1, h2]
+  · have : ss.vec r ≠ ss.vec s := fun he => hl (by rw [← (G.vec r).1, ← (G.vec s).1, he])
+    simp [hl, this]
+
+/-! ## non-vacuity: the hypotheses are satisfiable by non-trivial histories -/
+
+/-- a valid history with an aliased in-place insert, an input-range insert, erase, swap, move, a buffer conversion -/
+example :
+    (srunAll SSt.init
+      [.ctor 0 (.il [1, 2, 3]), .v 0 (.reserve 10), .v 0 (.insert1 0 (.slot 1)), .v 0 (.insertN 2 2 (.slot 0)),
+       .v 0 (.insertRange 1 [7, 8] false), .v 0 (.eraseR 1 3), .swap 0 1, .ctorMove 2 1,
+       .bctor 0 2, .b 0 (.fillWritten [5, 6]), .b 0 (.append 4 [9]), .ctorBuf 1 0]).map
+      (fun s => (s.vec 2, s.vec 1, s.buf 0)) = some ([2, 1, 2, 2, 2, 3], [5, 6, 9], ([], 0)) := by decide
+
+/-- the model run of the same history agrees (an instance of `history`, evaluated) -/
+example :
+    (do let st ← runAll growth St.init
+          [.ctor 0 (.il [1, 2, 3]), .v 0 (.reserve 10), .v 0 (.insert1 0 (.slot 1)), .v 0 (.insertN 2 2 (.slot 0)),
+           .v 0 (.insertRange 1 [7, 8] false), .v 0 (.eraseR 1 3), .swap 0 1, .ctorMove 2 1,
+           .bctor 0 2, .b 0 (.fillWritten [5, 6]), .b 0 (.append 4 [9]), .ctorBuf 1 0]
+        let a ← toList st.heap (st.vec 2)
+        let b ← toList st.heap (st.vec 1)
+        pure (a, b, st.heap.liveCount)) = Except.ok ([2, 1, 2, 2, 2, 3], [5, 6, 9], 2) := by rfl
+
+/-! ## the two repaired defects: the old behaviour violates the specification -/
+
+/-- before fix b34f226 the in-place branch read `_value` after the shift: `{1,2,3}`, capacity 10,
+`insert(begin(), v[1])` gave `1,1,2,3`; the specification (std::vector) and the repaired model give `2,1,2,3`. -/
+example :
+    (do let a ← construct growth Heap.empty (.il [1, 2, 3])
+        let b ← reserve growth a.1 a.2 10
+        let c ← insertGen growth false b.1 b.2 0 (.one (.slot 1))
+        toList c.1 c.2) = Except.ok [1, 1, 2, 3] ∧
+    (do let a ← construct growth Heap.empty (.il [1, 2, 3])
+        let b ← reserve growth a.1 a.2 10
+        let c ← insertGen growth true b.1 b.2 0 (.one (.slot 1))
+        toList c.1 c.2) = Except.ok [2, 1, 2, 3] ∧
+    (svstep [1, 2, 3] (.insert1 0 (.slot 1))).map (·.1) = some [2, 1, 2, 3] := ⟨by rfl, by rfl, by decide⟩
+
+/-- same for `insert(pos, n, v[i])` -/
+example :
+    (do let a ← construct growth Heap.empty (.il [1, 2, 3])
+        let b ← reserve growth a.1 a.2 10
+        let c ← insertGen growth false b.1 b.2 0 (.rep 1 (.slot 1))
+        toList c.1 c.2) = Except.ok [1, 1, 2, 3] ∧
+    (svstep [1, 2, 3] (.insertN 0 1 (.slot 1))).map (·.1) = some [2, 1, 2, 3] := ⟨by rfl, by decide⟩
+
+/-- before fix dc3c09a `erase(first,last)` returned `last`: for `{1,2,3,4,5}`, `erase(begin()+1, begin()+3)` the old
+code returned offset 3; std::vector (the specification) and the repaired model return offset 1. -/
+example :
+    (svstep [1, 2, 3, 4, 5] (.eraseR 1 3)).map (·.2) = some (some 1) ∧ (some 3 : Option Nat) ≠ some 1 ∧
+    (do let a ← construct growth Heap.empty (.il [1, 2, 3, 4, 5])
+        let c ← eraseR a.1 a.2 1 3
+        pure c.2.2) = Except.ok 1 := ⟨by decide, by decide, by rfl⟩
+
+end Fcppt.C07
